@@ -100,6 +100,12 @@ def repeated_record_cases(tier, seed):
 
 def explicit_all(tier, seed):
     yield from explicit(tier, seed)
+    # records of a branch that are QUEUED when its block completes early (large, slow to send): a call whose record was never sent must not
+    # return as if it had been (scenarios shared with C10)
+    from checks.c10 import inflight_cases
+
+    for c in inflight_cases(tier, seed):
+        yield dict(c, label="c03-" + c["label"])
     yield from after_return_cases(tier, seed)
     yield from repeated_record_cases(tier, seed)
 
